@@ -91,16 +91,16 @@ theorem views_only_grow {n n' : Net} (hreach : CalmReach E ids n) (hrun : CalmRu
 
 /-- **The timing premise, reduced to deliveries.** `RoundAnswered` — the one premise of `calm_cluster_stays_calm`
     that depends on latencies and clocks — holds at a probe timer whenever, since the round was started (by a
-    connected `A`, on `m`, under number `N`), the instance bearing `m`'s identity handled `A`'s Ping and `A` handled
+    connected `A`, on `m`, under number `N`), the instance bearing `m`'s identity — reachable, not defunct — handled `A`'s Ping and `A` handled
     the very bytes it sent back, both with result `Ok`, whatever else either of them handled in between
-    (`C12S.probe_round_trip`). What is left to the network and the clock is only that these two deliveries happen
+    (`C12S.probe_round_trip_not_defunct`). What is left to the network and the clock is only that these two deliveries happen
     within one probe period. -/
 theorem premise_reduces_to_deliveries (τ : Id → Nat) (m : Member) (N : Nat)
     {b b' : State} {ping : Bytes} {orcB leftB : Oracle} {effB : List Effect}
     (hb : CalmInv E τ ids b) (hping : DataOk E (CalmM τ ids) (CalmH τ ids) ping)
     (hstepB : Foca.step E b (.data ping) orcB = .done b' effB .ok leftB)
     (hp : Header) (restp : Bytes) (hdecp : E.codec.decHeader ping = some (hp, restp)) (hdstp : hp.dst = b.id)
-    (hmsgp : hp.msg = .ping N) (hbid : b'.id = m.id) (hconnB : b'.conn = .connected)
+    (hmsgp : hp.msg = .ping N) (hbid : b'.id = m.id) (hbreach : Reachable E b) (hbnu : b.conn ≠ .undead)
     {a0 a1 a2 a' : State} {ops1 ops2 : List Op}
     (hstart : a0.probe.direct = some m ∧ a0.probe.number = N) (hconn0 : a0.conn = .connected)
     (hsrcp : hp.src = a1.id)
@@ -110,8 +110,8 @@ theorem premise_reduces_to_deliveries (τ : Id → Nat) (m : Member) (N : Nat)
     (hstepA : Foca.step E a1 (.data ack) orcA = .done a2 effA .ok leftA)
     (hrun2 : C12H.Hist E a2 ops2 a') (hnp2 : ∀ op ∈ ops2, ∀ tok, op ≠ .timer (.probe tok)) :
     RoundAnswered a' :=
-  C12S.probe_round_trip E τ ids hl hhdr hdist m N hb hping hstepB hp restp hdecp hdstp hmsgp hbid hconnB hstart hconn0
-    hsrcp hrun1 hnp1 ha1 hsent hτ hstepA hrun2 hnp2
+  C12S.probe_round_trip_not_defunct E τ ids hl hhdr hdist m N hb hbreach hbnu hping hstepB hp restp hdecp hdstp hmsgp hbid
+    hstart hconn0 hsrcp hrun1 hnp1 ha1 hsent hτ hstepA hrun2 hnp2
 
 omit hl hhdr hdist in
 /-- non-vacuity: two fresh instances with different addresses form such a cluster; a fresh instance's (empty) probe
